@@ -34,6 +34,7 @@ TRUSTED_EXTRA = ["harness/ctl_pool.cpp maps std::condition_variable / std::threa
                  "job bodies run with the thread's coroutine ready queue switched off (a cancelled coroutine is resumed at once): the ready queue is C05's subject"]
 
 KINDS = [0, 1, 2, 3, 4, 5]
+TOPKINDS = KINDS + [6]   # 6 (top level only): run_detached of a callable whose move into the queue throws
 # body actions: 0..5 submit a closure of that kind, 6 stop() (last), 7 is_stopped(), 8 any_enqueued(), 9 co_await current()
 
 
@@ -118,7 +119,7 @@ def gen_prog(rng):
     ns = rng.choice([1, 2, 2, 3, 3, 4, 5, 6])
     prog = []
     for _ in range(ns):
-        prog.append(('s', rng.randrange(m), rng.choice(KINDS), rand_body(rng)))
+        prog.append(('s', rng.randrange(m), rng.choice(TOPKINDS), rand_body(rng)))
     # resume(suspend_point) with several prepared coroutines (heap-backed suspend points above 3)
     if rng.random() < 0.2:
         prog.insert(rng.randrange(len(prog) + 1), ('r', rng.randrange(m), rng.choice([1, 2, 3, 4, 4, 5, 6, 7, 9])))
@@ -174,6 +175,13 @@ def gen(seed, tier):
     # destructor against a stop() issued by a job: the destructor must wait for that stop
     for pre in itertools.product(range(3), repeat=5):
         cases.append(mk("d%d" % b, 2, [('s', 0, 3, [6]), ('s', 0, 3, [])], list(pre) + [0] * 4)); b += 1
+    # a callable whose move constructor throws exactly at _queue.push(): run_detached throws, the callable must be destroyed
+    # in the caller (exactly one outcome), nothing is queued; on a stopped pool nothing is moved and nothing throws
+    for n in (1, 2):
+        cases.append(mk("t%d" % b, n, [('s', 0, 6, []), ('s', 0, 3, [])], [1, 0, 1, 0, 2])); b += 1
+        cases.append(mk("t%d" % b, n, [('x', 0), ('s', 0, 6, [])], [0, 1, 0, 2])); b += 1
+        cases.append(mk("t%d" % b, n, [('s', 0, 2, [7]), ('s', 1, 6, [7]), ('s', 0, 6, []), ('x', 1)], [0, 2, 1, 0, 1, 2, 0, 3])); b += 1
+        cases.append(mk("t%d" % b, n, [('s', 0, 6, []), ('s', 0, 6, []), ('s', 0, 0, []), ('j', 0, 2)], [0, 0, 1, 0, 1, 2])); b += 1
     # three concurrent stop() callers from outside the pool while the only worker is busy: the first one joins, the other two
     # wait for it and both have to be woken when it has finished
     for pre in itertools.product(range(4), repeat=5):
